@@ -186,6 +186,50 @@ CLAIMS = {
         "modelled. Fixed: null description (252f2c6). Known: single-member Literal raises; unanchored pattern. Axioms: none.",
         "6 (C06)",
     ),
+    "C02": (
+        "Coq proofs for every signature / parameter list of the args-defaults alignment and the emit->parse of names, order and "
+        "defaults (function), and the class body shape; tied by comparison with cdd.function.parse on generated signatures; all other "
+        "clauses evaluated on the implementation over formats x styles x flags with per-class known findings",
+        "C02_defaults_alignment: for every (args, defaults) with len(defaults) <= len(args) the parser's left-padding pairs each "
+        "argument with exactly the default CPython gives it (a default cannot leak onto a neighbouring parameter); "
+        "C02_function_roundtrip / C02_default_stays_on_its_parameter: emit->parse keeps names, order and each present default at its "
+        "position, absent becomes None (the documented normalisation). The model is compared with function.parse on generated "
+        "signatures (positional, keyword-only, self/cls). Types, descriptions and the class/pydantic/argparse value handling are not "
+        "modelled: every IR is pushed through 7 format configurations x 3 docstring styles x emit_default_doc, rendered to text, "
+        "re-parsed and compared field by field (and unparse/reparse of the emitted AST is checked); each difference is a "
+        "discrepancy class (format/style/field/from-kind->to-kind) matched against known_findings.json -- 135 classes recorded on "
+        "the pinned tree -- and any other class is a violation: partial.",
+        "Trusted: Coq kernel; extraction + driver; harness comparison vocabulary. Axioms: none.",
+        "6 (C02)",
+    ),
+    "C03": (
+        "Coq proof by induction over the chain (any length) on a per-format normal-form table, with refutation theorems for the "
+        "drifting inputs; the table is kept honest by hop-by-hop comparison with real conversion chains",
+        "Model/Norm.v gives, for the five formats, the normal form of (type, default) of one parameter over the common domain, as "
+        "measured on the code (function: absent->None; class/pydantic: None widens the type to Optional; argparse: absent->0/0.0/''; "
+        "docstring: None->'(None)', negative int->float, ''->absent). C03_chain / C03_commute: on dom03 (default present, not None, "
+        "non-negative ints, non-empty strings) every chain of any length returns exactly the start; C03_refuted_*: four short chains "
+        "on which the faithful model -- and the implementation -- drift or fail to commute (known findings). Every run executes all 25 "
+        "chains of length 2 and 40 (quick) / all 125 (thorough) of length 3 (+4-5 in thorough) per generated IR on the "
+        "implementation, compares every intermediate parameter state with the model (0 disagreements required), requires exact "
+        "preservation on dom03 and matches per-hop differences elsewhere against recorded classes. The table is measured, not "
+        "derived from the emitters: partial.",
+        "Trusted: Coq kernel; extraction + driver; the measured table (validated each run). Axioms: none.",
+        "6 (C03)",
+    ),
+    "C08": (
+        "Coq proof (exhaustive case analysis over the finite shape of a parameter state, lifted to all rounds by induction) that "
+        "every format's normal-form function is idempotent; real 2..4-round runs compared round n vs n+1",
+        "C08_idempotent / C08_rounds: for every parameter of the common domain, including the part a first round changes, and each "
+        "of the five modelled formats, the second and every later round return what the first returned (Model/Norm.v, validated "
+        "against the implementation each run). For 14 configurations (ReST with and without default-stripping, Google, NumPy, class, "
+        "pydantic, function x3, argparse, json_schema, sqlalchemy, sqlalchemy_table) and IRs with trigger-word descriptions, "
+        "non-suffix defaults and unusual types, 2..4 real rounds are run and round n+1 is compared with round n exactly; drift classes "
+        "present on the pinned tree (many for Google/NumPy, 'Defaults to None' re-typing, code-quoted dict defaults) are recorded "
+        "known findings, anything else is a violation. Descriptions are not modelled: partial.",
+        "Trusted: Coq kernel; extraction + driver; the measured table. Axioms: none.",
+        "6 (C08)",
+    ),
 }
 
 NOT_YET = "check not built yet in this development (DESIGN.md section 8 gives the order of work)"
